@@ -68,25 +68,34 @@ def run(rep, tier, seed, model_ok=True, effort=1):
     else:
         sample = r.sample(allv, min(len(allv), 2500 * effort))
         rep.exhaustive = len(sample) == len(allv)
-    iv = utils.now().strftime("%Y.1001-alpha")
+    import datetime as dt
     items, meta = [], []
     seen = set()
-    for kinds, others in sample:
-        if (kinds, others) in seen:
+    # "this year's initial version": the clock bumpver reads (utils.now) is also pinned to days around New Year, where the
+    # ISO / week-based years differ from the calendar year
+    pins = [dt.datetime(2024, 12, 30, 12, 0), dt.datetime(2027, 1, 1, 0, 30), dt.datetime(2028, 1, 2, 23, 0), dt.datetime(2026, 12, 31, 23, 59), dt.datetime(2021, 1, 3, 9, 0)]
+    unconfigured = [l for l in sample if "section" not in l[0]]
+    jobs = [(k, o, None) for k, o in sample] + [(k, o, pins[i % len(pins)]) for i, (k, o) in enumerate(unconfigured[:10 * effort])]
+    real_now = utils.now
+    for kinds, others, pinned in jobs:
+        if (kinds, others, pinned) in seen:
             continue
-        seen.add((kinds, others))
+        seen.add((kinds, others, pinned))
+        year = (pinned or real_now()).year
+        iv = "%04d.1001-alpha" % year
+        utils.now = (lambda p=pinned: p) if pinned else real_now
         d = tempfile.mkdtemp(prefix="bvinit_", dir=project.SCRATCH)
         try:
             files = materialise(d, kinds, others)
             before = snapshot(d)
             has_section = [f for f, k in zip(CONFIG_FILES, kinds) if k == "section"]
-            inp = dict(layout=dict(zip(CONFIG_FILES, kinds)), others=[f for f, p in zip(OTHER_FILES, others) if p])
+            inp = dict(layout=dict(zip(CONFIG_FILES, kinds)), others=[f for f, p in zip(OTHER_FILES, others) if p], clock=str(pinned) if pinned else "system")
             c0, o0, e0 = impl.run_cli(["init", "--dry"], cwd=d)
             if snapshot(d) != before:
                 rep.violation("init --dry wrote to the project", input=inp, **{"class": "dry-wrote"})
             c1, o1, e1 = impl.run_cli(["init"], cwd=d)
             after = snapshot(d)
-            rep.case((kinds, others), nontrivial=c1 == 0)
+            rep.case((kinds, others, str(pinned)), nontrivial=c1 == 0)
             rep.count("init-exit=%s" % ("0" if c1 == 0 else "nonzero"))
             picked = next((l.split("Updated ", 1)[1].strip() for l in o1.splitlines() if l.startswith("Updated ")), None)
             if has_section:
@@ -108,7 +117,7 @@ def run(rep, tier, seed, model_ok=True, effort=1):
                         rep.violation("init --dry failed where init succeeds", input=inp, **{"class": "dry-fails"})
                     c2, o2, e2 = impl.run_cli(["show", "--no-fetch"], cwd=d)
                     if c2 != 0 or ("Current Version: %s" % iv) not in o2:
-                        rep.violation("show cannot read back the configuration init wrote to %s" % picked, input=dict(inp, out=o2[-300:], exc=repr(e2)), **{"class": "show-after-init"})
+                        rep.violation("show does not report this year's initial version (%s) from the configuration init wrote to %s" % (iv, picked), input=dict(inp, out=o2[-300:], exc=repr(e2)), **{"class": "show-after-init"})
                     # the same file is selected again
                     from bumpver import config, pathlib as pl
                     old = os.getcwd(); os.chdir(d)
@@ -132,17 +141,18 @@ def run(rep, tier, seed, model_ok=True, effort=1):
                 exp = "(InitWrote %s %s)" % (cs(picked), cs(after[picked].decode("utf-8")))
             else:
                 exp = "InitError"
-            items.append("(%s,%s,%s)" % (cdir, cb(configured), exp))
+            items.append("(%s,%s,%s,%s)" % (cdir, cb(configured), cs(iv), exp))
             meta.append(inp)
             if c1 == 0:
                 rep.sample(dict(layout=inp["layout"], others=inp["others"], picked=picked), limit=6)
         finally:
+            utils.now = real_now
             shutil.rmtree(d, ignore_errors=True)
     if model_ok:
         eq = ("fun a b => match a, b with InitRefused, InitRefused | InitError, InitError => true "
               "| InitWrote f c, InitWrote f' c' => eqb_str f f' && eqb_str c c' | _, _ => false end")
-        bad, errs = common.coq_eval("c19", HDR, "list (list N * list N) * bool * init_res",
-                                    "fun '(d, conf, e) => (%s) (init_cmd d conf false %s) e" % (eq, cs(iv)), items, shard=60)
+        bad, errs = common.coq_eval("c19", HDR, "list (list N * list N) * bool * list N * init_res",
+                                    "fun '(d, conf, iv, e) => (%s) (init_cmd d conf false iv) e" % eq, items, shard=60)
         for i in bad:
             rep.mismatch("init: model differs from implementation (picked file or written bytes)", input=meta[i])
         rep.corr_errors += errs
